@@ -219,4 +219,262 @@ mutual
       | stale => exact invO_head Q m r _ _ (by simp) hx
 end
 
+/-- for Set/Del every new content is allowed -/
+def QAny : JV → JV → Prop := fun _ _ => True
+
+/-! ## SetOne / DelOne -/
+
+theorem writeKey_one (a : SetArg) (k : Bytes) (kvs : List (Bytes × JV)) : AtMostOne QAny (.obj kvs) (.obj (writeKey a k kvs)) := by
+  cases a with
+  | del => right; exact OneChange.eraseKey k kvs
+  | val v =>
+    simp only [writeKey]
+    cases hl : lookup k kvs with
+    | none =>
+      right
+      have : ∀ (kvs : List (Bytes × JV)), lookup k kvs = none → kvInsert k v kvs = kvs ++ [(k, v)] := by
+        intro kvs
+        induction kvs with
+        | nil => intro _; rfl
+        | cons m r ih =>
+          intro h
+          cases m with
+          | mk k' v' =>
+          simp only [lookup] at h
+          by_cases e : k' = k
+          · simp [e] at h
+          · simp only [e, if_false] at h
+            simp [kvInsert, e, ih h]
+      rw [this kvs hl]; exact OneChange.ins k v kvs
+    | some c =>
+      right
+      obtain ⟨j, h1, h2⟩ := kvInsert_set k v kvs c hl
+      rw [h2]; exact OneChange.putO j k v kvs c h1 trivial
+
+theorem setLastUnion_inv (gen : Bool) (dev : Dev) (a : SetArg) : ∀ (ms : List Member) (d : JV),
+    Inv QAny d (setLastUnion gen dev true a ms d)
+  | [], d => inv_same QAny d .go
+  | m :: ms, d => by
+    cases m with
+    | key k =>
+      cases d with
+      | obj kvs =>
+        simp only [setLastUnion, if_true]
+        exact ⟨fun h => (by cases h), writeKey_one a k kvs⟩
+      | _ => simp only [setLastUnion]; exact setLastUnion_inv gen dev a ms _
+    | idx i =>
+      cases d with
+      | arr xs =>
+        simp only [setLastUnion]
+        cases ha : absIdx xs.length i with
+        | some j =>
+          simp only [if_true]
+          refine ⟨fun h => (by cases h), Or.inr ?_⟩
+          have hj := absIdx_lt _ _ _ ha
+          exact OneChange.putA j a.elem xs xs[j] (by simp [hj]) trivial
+        | none =>
+          simp only
+          split
+          · exact inv_same QAny _ .fault
+          · exact setLastUnion_inv gen dev a ms _
+      | _ => simp only [setLastUnion]; exact setLastUnion_inv gen dev a ms _
+
+theorem setLast_inv (gen : Bool) (dev : Dev) (a : SetArg) (f : Frag) (d : JV) : Inv QAny d (setLast gen dev true a f d) := by
+  cases f with
+  | child k =>
+    cases d with
+    | obj kvs => simp only [setLast, stopIf, if_true]; exact ⟨fun h => (by cases h), writeKey_one a k kvs⟩
+    | _ => exact inv_same QAny _ .go
+  | nth i =>
+    cases d with
+    | arr xs =>
+      simp only [setLast]
+      cases ha : absIdx xs.length i with
+      | some j =>
+        simp only [stopIf, if_true]
+        refine ⟨fun h => (by cases h), Or.inr ?_⟩
+        have hj := absIdx_lt _ _ _ ha
+        exact OneChange.putA j a.elem xs xs[j] (by simp [hj]) trivial
+      | none => exact inv_same QAny _ _
+    | _ => exact inv_same QAny _ .go
+  | wild =>
+    cases d with
+    | obj kvs =>
+      simp only [setLast, if_true]
+      cases kvs with
+      | nil => exact inv_same QAny _ .go
+      | cons m r =>
+        refine ⟨fun h => (by cases h), Or.inr ?_⟩
+        simp only
+        cases hd : a.isDel with
+        | true =>
+          simp only [if_true]
+          have := OneChange.eraseAt (Q := QAny) 0 (m :: r)
+          simpa using this
+        | false =>
+          simp only [Bool.false_eq_true, if_false]
+          have := OneChange.putO (Q := QAny) 0 m.1 a.elem (m :: r) m.2 (by simp) trivial
+          simpa using this
+    | arr xs =>
+      simp only [setLast, if_true]
+      cases xs with
+      | nil => exact inv_same QAny _ .go
+      | cons x r =>
+        refine ⟨fun h => (by cases h), Or.inr ?_⟩
+        have := OneChange.putA (Q := QAny) 0 a.elem (x :: r) x (by simp) trivial
+        simpa using this
+    | _ => exact inv_same QAny _ .go
+  | union ms => exact setLastUnion_inv gen dev a ms d
+  | descent => exact inv_same QAny _ .go
+  | slice s e t => exact inv_same QAny _ .go
+  | filter p => exact inv_same QAny _ .go
+
+theorem setFollow_inv (l : Loc) (c : JV) (k : Bool → JV → R) (hk : ∀ fl c, Inv QAny c (k fl c)) (d : JV)
+    (hc : child? l d = some c) : Inv QAny d (setFollow l c k d) := by
+  simp only [setFollow]
+  cases isContainer c with
+  | false => exact inv_same QAny _ _
+  | true => simp only [if_true]; exact inv_put QAny l d c _ hc (hk false c)
+
+/-- in a One form the chain of created containers always ends in the write (or in an error): it never just goes on -/
+theorem chain_arr_nogo (gen : Bool) (dev : Dev) (v : JV) (i : Int) (r : List Frag) (fl : Bool) (hi : 0 ≤ i) :
+    (setF gen dev true (.val v) (.nth i :: r) fl (.arr (List.replicate (i.toNat + 1) .null))).st ≠ .go := by
+  cases r with
+  | nil =>
+    rw [setF_single_eq _ _ _ _ _ rfl]
+    simp [setLast, absIdx_replicate i hi, stopIf]
+  | cons g r' =>
+    rw [setF_nth_eq]
+    simp only [List.length_replicate, absIdx_replicate i hi]
+    have : (List.replicate (i.toNat + 1) JV.null)[i.toNat]? = some JV.null := by simp
+    simp [this, setFollow, isContainer]
+
+theorem chain_obj_nogo (gen : Bool) (dev : Dev) (v : JV) : ∀ (rest : List Frag) (k : Bytes) (fl : Bool),
+    (setF gen dev true (.val v) (.child k :: rest) fl (.obj [])).st ≠ .go
+  | [], k, fl => by
+    rw [setF_single_eq _ _ _ _ _ rfl]
+    simp [setLast, stopIf]
+  | g :: r, k, fl => by
+    rw [setF_child_eq]
+    simp only [lookup, setCreate, List.head?_cons]
+    cases g with
+    | child k' => exact chain_obj_nogo gen dev v r k' false
+    | nth i =>
+      simp only
+      by_cases hi : i < 0
+      · simp [hi]
+      · simp only [hi, if_false]; exact chain_arr_nogo gen dev v i r false (by omega)
+    | wild => simp
+    | descent => simp
+    | union ms => simp
+    | slice s e t => simp
+    | filter p => simp
+
+theorem setCreate_inv (gen : Bool) (dev : Dev) (a : SetArg) (key : Bytes) (g : Frag) (r : List Frag) (kvs : List (Bytes × JV)) :
+    Inv QAny (.obj kvs) (setCreate a key (g :: r) (setF gen dev true a (g :: r)) kvs) := by
+  cases a with
+  | del => exact inv_same QAny _ .go
+  | val v =>
+    simp only [setCreate, List.head?_cons]
+    have hins : ∀ (c : JV), AtMostOne QAny (.obj kvs) (.obj (kvInsert key c kvs)) := fun c => writeKey_one (.val c) key kvs
+    cases g with
+    | child k' =>
+      simp only
+      exact ⟨fun h => absurd h (chain_obj_nogo gen dev v r k' false), hins _⟩
+    | nth i =>
+      simp only
+      by_cases hi : i < 0
+      · simp only [hi, if_true]; exact inv_same QAny _ _
+      · simp only [hi, if_false]
+        exact ⟨fun h => absurd h (chain_arr_nogo gen dev v i r false (by omega)), hins _⟩
+    | wild => exact inv_same QAny _ _
+    | descent => exact inv_same QAny _ _
+    | union ms => exact inv_same QAny _ _
+    | slice s e t => exact inv_same QAny _ _
+    | filter p => exact inv_same QAny _ _
+
+/-- SetOne / DelOne: the invariant of the traversal -/
+theorem setF_inv (gen : Bool) (dev : Dev) (a : SetArg) : ∀ (x : List Frag) (fl : Bool) (d : JV),
+    Inv QAny d (setF gen dev true a x fl d)
+  | [], _, d => inv_same QAny d .go
+  | f :: rest, fl, d => by
+    have ih := setF_inv gen dev a rest
+    cases f with
+    | descent =>
+      simp only [setF]
+      by_cases h1 : rest.isEmpty = true
+      · simp only [h1, if_true]; exact inv_same QAny d .go
+      · by_cases h2 : fl = true
+        · simp only [h1, h2, Bool.false_eq_true, if_false, if_true]; exact ih false d
+        · simp only [h1, h2, Bool.false_eq_true, if_false]; exact descGo_inv QAny _ (fun c => ih false c) d
+    | child key =>
+      cases rest with
+      | nil => rw [setF_single_eq _ _ _ _ _ rfl]; exact setLast_inv gen dev a _ d
+      | cons g r =>
+        cases d with
+        | obj kvs =>
+          rw [setF_child_eq]
+          cases hl : lookup key kvs with
+          | some c => simp only; exact setFollow_inv _ c _ ih _ hl
+          | none => simp only; exact setCreate_inv gen dev a key g r kvs
+        | _ => exact inv_same QAny _ .go
+    | nth i =>
+      cases rest with
+      | nil => rw [setF_single_eq _ _ _ _ _ rfl]; exact setLast_inv gen dev a _ d
+      | cons g r =>
+        cases d with
+        | arr xs =>
+          rw [setF_nth_eq]
+          cases ha : absIdx xs.length i with
+          | none => exact inv_same QAny _ _
+          | some j =>
+            simp only
+            cases hx : xs[j]? with
+            | none => exact inv_same QAny _ _
+            | some c => simp only; exact setFollow_inv _ c _ ih _ hx
+        | _ => exact inv_same QAny _ .go
+    | union ms =>
+      simp only [setF]
+      by_cases h1 : rest.isEmpty = true
+      · simp only [h1, if_true]; exact setLast_inv gen dev a _ d
+      · simp only [h1, Bool.false_eq_true, if_false]
+        split
+        · exact inv_same QAny _ _
+        · exact visitD_inv QAny _ _ _ ih _ _ _
+    | wild =>
+      simp only [setF]
+      by_cases h1 : rest.isEmpty = true
+      · simp only [h1, if_true]; exact setLast_inv gen dev a _ d
+      · simp only [h1, Bool.false_eq_true, if_false]; exact visitD_inv QAny _ _ _ ih _ _ _
+    | slice s e t =>
+      simp only [setF]
+      by_cases h1 : rest.isEmpty = true
+      · simp only [h1, if_true]; exact setLast_inv gen dev a _ d
+      · simp only [h1, Bool.false_eq_true, if_false]; exact visitD_inv QAny _ _ _ ih _ _ _
+    | filter p =>
+      simp only [setF]
+      by_cases h1 : rest.isEmpty = true
+      · simp only [h1, if_true]; exact setLast_inv gen dev a _ d
+      · simp only [h1, Bool.false_eq_true, if_false]; exact visitD_inv QAny _ _ _ ih _ _ _
+
+/-- the data an outcome carries -/
+def Out.data (d : JV) : Out → JV
+  | .ok d' => d'
+  | .err _ d' => d'
+  | .fault d' => d'
+  | .unmodelled => d
+
+/-- SetOne / DelOne (every path, every deviation set, simple and gen data): whatever is reported, the data
+afterwards is the data before or differs from it by one member of one container written, added or deleted -/
+theorem setOne_atMost (gen : Bool) (dev : Dev) (a : SetArg) (x : List Frag) (d : JV) :
+    AtMostOne QAny d ((setM gen dev true a x d).data d) := by
+  simp only [setM]
+  split
+  · left; rfl
+  · have := setF_inv gen dev a x false d
+    cases hv : setF gen dev true a x false d with
+    | mk dd ss =>
+      rw [hv] at this
+      cases ss <;> simp only [R.out, Out.data] <;> first | exact this.2 | (left; rfl)
+
 end OjgVerif.JPMut
